@@ -65,11 +65,23 @@ def check(spec):
             d["number"][ti] = elig * r["fraction"] / (dt if r["one_off"] else 1.0)
             if start <= t[ti] <= stop and 0 < r["fraction"] < 1:
                 feats.add("partial-coverage")
-    # the reports are requested from the same Result in an order that varies from case to case, every quantity twice: what is
-    # reported must not depend on what was asked before (a report that caches or annualises in place shows on the second request)
+    # A finished result is self-contained: in one case out of three the caller goes on to edit the SAME program set and instructions
+    # objects (preparing the next budget scenario) before asking the first result for its reports - they must still be "the ones that
+    # produced those values"
     import itertools, json, zlib
 
-    order = list(itertools.permutations(("spend", "capacity", "eligible", "fraction", "number")))[zlib.crc32(json.dumps(spec, sort_keys=True).encode()) % 120]
+    crc = zlib.crc32(json.dumps(spec, sort_keys=True).encode())
+    if (crc // 120) % 3 == 0 and b.get("progset") is not None:
+        for prog in b["progset"].programs.values():
+            prog.spend_data.vals = [3.0 * v + 7.0 for v in prog.spend_data.vals]
+            prog.unit_cost.vals = [2.0 * v + 1.0 for v in prog.unit_cost.vals]
+            prog.target_comps = list(prog.target_comps)[:1]
+        for ts in list(b["instructions"].alloc.values()) + list(b["instructions"].coverage.values()) + list(b["instructions"].capacity.values()):
+            ts.vals = [0.5 * v for v in ts.vals]
+        feats.add("caller-edited-progset-after-run")
+    # the reports are requested from the same Result in an order that varies from case to case, every quantity twice: what is
+    # reported must not depend on what was asked before (a report that caches or annualises in place shows on the second request)
+    order = list(itertools.permutations(("spend", "capacity", "eligible", "fraction", "number")))[crc % 120]
     requests = []
     for quantity in order + order[::-1]:
         requests.append((quantity, res.get_alloc() if quantity == "spend" else res.get_coverage(quantity)))
